@@ -107,6 +107,105 @@ theorem counter_decreases (c : Consts) (δ : Nat) (s : MonSt) (h : 2 ≤ s.count
   have : ¬ (s.counter - 1 = 0) := by omega
   simp [this]
 
+/-! ### whole lives of the helper: any environment, any overshoots, any length -/
+
+/-- the lock is never dated in the future, whatever the helper saw -/
+theorem round_mtime_le_now (c : Consts) (δ : Nat) (env : Env) (s : MonSt) (h : s.mtime ≤ s.now) :
+    (round c δ env s).1.mtime ≤ (round c δ env s).1.now ∧ s.now ≤ (round c δ env s).1.now ∧
+    s.mtime ≤ (round c δ env s).1.mtime := by
+  by_cases hc : s.counter - 1 = 0 <;> cases env <;> simp [round, hc] <;> omega
+
+theorem run_mtime_le_now (c : Consts) (es : List (Nat × Env)) (s : MonSt) (h : s.mtime ≤ s.now) :
+    (runEnv c s es).1.mtime ≤ (runEnv c s es).1.now ∧ s.now ≤ (runEnv c s es).1.now := by
+  induction es generalizing s with
+  | nil => simp [runEnv, h]
+  | cons e es ih =>
+    obtain ⟨δ, env⟩ := e
+    have hr := round_mtime_le_now c δ env s h
+    simp only [runEnv]
+    split
+    · have := ih (round c δ env s).1 hr.1
+      exact ⟨this.1, by omega⟩
+    · exact ⟨hr.1, hr.2.1⟩
+
+/-- **the helper never outlives its lock by more than one refresh interval**: once the lock file is gone (or the worker is),
+    in every later round, the helper has stopped after at most `counter` rounds - for every schedule of overshoots -/
+theorem lock_gone_stops (c : Consts) (es : List (Nat × Env)) (s : MonSt) (hne : ∀ e ∈ es, e.2 ≠ .ok)
+    (hlen : s.counter ≤ es.length) (hpos : 1 ≤ es.length) : (runEnv c s es).2 = false := by
+  induction es generalizing s with
+  | nil => simp at hpos
+  | cons e es ih =>
+    obtain ⟨δ, env⟩ := e
+    have henv : env ≠ .ok := hne (δ, env) (by simp)
+    simp only [runEnv]
+    split
+    · rename_i hgo
+      -- the round went on: so it was a lock-gone round with counter ≥ 2
+      cases env with
+      | ok => exact absurd rfl henv
+      | parentGone => simp [round] at hgo
+      | lockGone =>
+        by_cases hc : s.counter ≤ 1
+        · have := terminates_lock_gone c δ s hc
+          simp [this] at hgo
+        · have hd := counter_decreases c δ s (by omega)
+          refine ih _ (fun e he => hne e (by simp [he])) (by rw [hd.1]; simp at hlen; omega) ?_
+          simp at hlen; omega
+    · rfl
+
+/-- a dead worker is noticed at the helper's next wake-up, whatever came before: the life ends there, nothing after it in the
+    schedule matters, the lock is not refreshed, and from `expiry` after that wake-up on everybody reports the lock failed -/
+theorem dead_worker_run (c : Consts) (pre post : List (Nat × Env)) (δ : Nat) (s : MonSt) (hm : s.mtime ≤ s.now)
+    (hrun : (runEnv c s pre).2 = true) :
+    (runEnv c s (pre ++ (δ, .parentGone) :: post)).2 = false ∧
+    (runEnv c s (pre ++ (δ, .parentGone) :: post)).1.mtime = (runEnv c s pre).1.mtime ∧
+    ∀ t, (runEnv c s pre).1.now + c.expiry ≤ t →
+      isFailed c t (runEnv c s (pre ++ (δ, .parentGone) :: post)).1.mtime = true := by
+  induction pre generalizing s with
+  | nil =>
+    have hd := dead_eventually_failed c δ s hm
+    simp only [List.nil_append, runEnv, hd.1]
+    exact ⟨by simp, by simpa using hd.2.1, by simpa using hd.2.2.2⟩
+  | cons e pre ih =>
+    obtain ⟨δ', env⟩ := e
+    have hr := round_mtime_le_now c δ' env s hm
+    simp only [List.cons_append, runEnv] at hrun ⊢
+    split
+    · rename_i hgo
+      simp only [hgo, ↓reduceIte] at hrun
+      exact ih (round c δ' env s).1 hr.1 hrun
+    · rename_i hstop
+      simp [hstop] at hrun
+
+/-- a helper that has stopped stays stopped: a longer schedule changes nothing -/
+theorem stopped_is_final (c : Consts) (es more : List (Nat × Env)) (s : MonSt) (h : (runEnv c s es).2 = false) :
+    runEnv c s (es ++ more) = runEnv c s es := by
+  induction es generalizing s with
+  | nil => simp [runEnv] at h
+  | cons e es ih =>
+    obtain ⟨δ, env⟩ := e
+    simp only [List.cons_append, runEnv] at h ⊢
+    split
+    · rename_i hgo
+      simp only [hgo, ↓reduceIte] at h
+      exact ih _ h
+    · rfl
+
+/-- live rounds of a whole life are the live runs of `live_never_failed` -/
+theorem runEnv_live (c : Consts) (δs : List Nat) (s : MonSt) :
+    runEnv c s (δs.map fun δ => (δ, Env.ok)) = (runLive c s δs, true) := by
+  induction δs generalizing s with
+  | nil => simp [runEnv, runLive]
+  | cons d ds ih =>
+    have : (round c d .ok s).2.1 = true := by
+      unfold round
+      simp only [show (Env.ok = Env.parentGone) = False by simp, ↓reduceIte]
+      split <;> simp
+    simp only [List.map_cons, runEnv, this, ↓reduceIte, runLive]
+    exact ih _
+
+example : (runEnv ⟨5, 3, 100⟩ ⟨0, 0, 3⟩ [(0, .ok), (1, .lockGone), (0, .lockGone), (0, .ok)]) = (⟨16, 0, 3⟩, false) := by decide
+
 /-! ### bridge: the constants and the loop of the code as it is now -/
 open Jug.Generated.KeepAlive
 
